@@ -41,6 +41,12 @@ fn transforms() -> Vec<(&'static str, Matrix4<f32>)> {
             "general",
             Matrix4::new_rotation(Vector3::new(0.3, -0.2, 0.5)) * Matrix4::new_nonuniform_scaling(&Vector3::new(1.2, 0.8, 1.0)),
         ),
+        // camera perspective as the CLI demo builds it: bottom row (0, 0, p, 1)
+        ("perspective", {
+            let mut m = Matrix4::identity();
+            m[(3, 2)] = 0.3;
+            m
+        }),
     ]
 }
 
@@ -268,7 +274,7 @@ impl Check for C07 {
     }
     fn meta(&self, tier: Tier) -> Meta {
         Meta {
-            rule: "case = one voxel render; full Cartesian product of 9 shapes (sphere, box, two slabs with a gap (occlusion), slab with a hole, tilted half-space, small sphere above a plate, empty, full, sphere with a free radius) x voxel grids with width != height != depth incl. non-multiples of every tile size x 7 tile-size chains x 5 view transforms (identity, scale, z translation, 90-degree rotation about x, general rotation+scale) x thread pool / none x VM / JIT; oracle: brute force over the whole column (f64 evaluation of the same program at cfg.mat()*(i,j,k,1)): depth = 1 + highest k < D with a decidably negative value, 0 if none, and D when that is >= D-1 (the implementation's documented clamp; counted separately); columns negative within the top root tile beyond the grid, or with an undecidable voxel at or above the surface, are skipped (counted); the normal of an unclamped surface pixel must match the f64 dual-number gradient of shape o transform at voxel (i,j,depth-1): direction and magnitude within 1e-3".into(),
+            rule: "case = one voxel render; full Cartesian product of 9 shapes (sphere, box, two slabs with a gap (occlusion), slab with a hole, tilted half-space, small sphere above a plate, empty, full, sphere with a free radius) x voxel grids with width != height != depth incl. non-multiples of every tile size x 7 tile-size chains x 6 view transforms (identity, scale, z translation, 90-degree rotation about x, general rotation+scale, camera perspective with bottom row (0,0,0.3,1)) x thread pool / none x VM / JIT; oracle: brute force over the whole column (f64 evaluation of the same program at cfg.mat()*(i,j,k,1)): depth = 1 + highest k < D with a decidably negative value, 0 if none, and D when that is >= D-1 (the implementation's documented clamp; counted separately); columns negative within the top root tile beyond the grid, or with an undecidable voxel at or above the surface, are skipped (counted); the normal of an unclamped surface pixel must match the f64 dual-number gradient of shape o transform at voxel (i,j,depth-1): direction and magnitude within 1e-3".into(),
             bounds: match tier {
                 Tier::Quick => "5 grids up to 17 voxels per axis".into(),
                 Tier::Thorough => "13 grids up to 17 voxels per axis".into(),
